@@ -144,6 +144,16 @@ def check(ctx, chain, workload, wit_extra=None):
             ctx.hit("viewer-with-graph-node-edge-attributes")
             rd = ("TB", "BT", "RL", "LR")[(_ngraphs[0] // 7) % 4]
             return DecayChainViewer(given, graph_attr={"rankdir": rd}, node_attr={"fontsize": "9"}, edge_attr={"fontsize": "8"}).to_string()
+        if _ngraphs[0] % 9 == 4:
+            # the viewer object is kept; its first use is abandoned at a random line of the library's code (Ctrl-C), then it is used again
+            from .. import trace  # noqa: PLC0415
+
+            ctx.hit("viewer-object-used-again-after-its-first-use-was-abandoned")
+            fp = trace.Failpoint.get()
+            _, n = fp.count(lambda: DecayChainViewer(given).to_string())
+            v = DecayChainViewer(given)
+            fp.inject(ctx.rng.randint(1, max(1, n)), v.to_string)
+            return v.to_string()
         if _ngraphs[0] % 5 == 1:
             # constructor options of the README (`name=`, `format=`) and graph attributes: the identifiers stay unique all the same
             ctx.hit("viewer-with-name-and-format-options")
@@ -315,7 +325,19 @@ def run(ctx):
         ok, res = ctx.guard("parse", {"kind": "graph", "text": text}, snapshot.make_parser, text)
         if not ok:
             continue
+        # the additions above are meant to keep the table set acyclic; that is re-checked on the statements as they now stand (a name added to a line may be
+        # a table made by CDecay / CopyDecay): a mother that reaches itself is outside what every property covers and is not drawn
+        try:
+            exp_now = L.expected(stmts)
+            T_now = {mm: [{"fs": list(ln["fs"])} for ln in lines] for mm, lines in {**exp_now["tables"], **exp_now["derived"]}.items()}
+        except Exception:  # noqa: BLE001
+            T_now = None
+        from .. import contracts as _CT  # noqa: PLC0415
+
         for m in parts[:2]:
+            if T_now is None or m not in T_now or not _CT._reach_acyclic(T_now, m):
+                ctx.hit("generated-table-set-not-acyclic-after-additions:skipped")
+                continue
             direct = sorted({d for ln in T[m] for d in ln["fs"] if d in T})
             # the same daughter lists once as nodes with decaying daughters and once (everything below kept stable) as plain final states
             # ... in both orders: final-state role first (then again as node with sub-decays), and the other way round
